@@ -32,6 +32,7 @@ ASSUMPTIONS = ["memo caches start empty", "the exported record order is read fro
 REQUIRED_REACH = ['C07.circuit_level', 'C07.qubit_level', 'C07.filter_qubit', 'C07.filter_tag', 'C07.tag_partition', 'C07.record_order', 'C07.time_order', 'C07.time_order.library']
 EXHAUSTIVE = {'quick': False, 'thorough': False}
 JOB_OPTS = {'quick': dict(max_paths=3000, max_seconds=500, twin_every=2), 'thorough': dict(max_paths=20000, max_seconds=1500, twin_every=4)}
+TRUNCATION_OK = {'quick': 4, 'thorough': 20}   # sampled tier: this many random jobs may exhaust their path/time budget (listed as truncated in the evidence)
 
 QUBITS = (0, 1, 2)
 TAGS = ('', 'a', 'b')
